@@ -25,6 +25,8 @@ class Violation(object):
         self.message = message
         self.case = case                # JSON-able; Check.replay(case) re-executes it
         self.detail = detail
+        self.job = None                 # the job that found it (for violations that need the job's preceding executions)
+        self.needs_job = False
 
     def to_json(self):
         return {'signature': self.signature, 'message': self.message, 'case': self.case, 'detail': self.detail}
@@ -109,10 +111,28 @@ def _pin():
 def _worker(args):
     mod, job = args
     _pin()
+    from . import canon, world as W
     try:
         check = load_check(mod)
+        canon.clean_fingerprint()
         r = check.run_job(job)
+        for v in r.violations:
+            v.job = job
         return ('ok', r)
+    except W.HarnessError:
+        tb = traceback.format_exc()
+        leaked = canon.leaked_module_state()
+        if leaked:
+            # executions of this job were not reproducible (prefix replay diverged) and lomond keeps state outside the objects
+            # under test: behaviour depends on earlier connections in the same process
+            r = JobResult()
+            r.executions = 1
+            v = Violation('%s:history-dependent-behaviour' % mod, 'identical inputs produced different executions within one process; '
+                          'lomond module/class-level state left behind by earlier connections: %s' % leaked, {'job-level': True})
+            v.job = job
+            r.violations.append(v)
+            return ('ok', r)
+        return ('crash', 'job %r\n%s' % (job, tb))
     except BaseException:  # noqa
         return ('crash', 'job %r\n%s' % (job, traceback.format_exc()))
 
@@ -136,7 +156,7 @@ def _write_replay(pid, v):
     d = os.path.join(REPLAY_DIR, pid)
     os.makedirs(d, exist_ok=True)
     body = json.dumps({'property': pid, 'signature': v.signature, 'message': v.message, 'case': v.case,
-                       'detail': v.detail}, indent=1, sort_keys=True, default=repr)
+                       'detail': v.detail, 'job': v.job if v.needs_job else None}, indent=1, sort_keys=True, default=repr)
     name = hashlib.sha1(json.dumps([v.signature, v.case], sort_keys=True, default=repr).encode()).hexdigest()[:12]
     path = os.path.join(d, name + '.json')
     with open(path, 'w') as f:
@@ -147,6 +167,8 @@ def _write_replay(pid, v):
 def run_check(pid, tier, seed, out=sys.stdout):
     t0 = time.time()
     check = load_check(pid)
+    from . import canon
+    canon.clean_fingerprint()      # before anything has run in this process
     jobs = list(check.jobs(tier, seed))
     rnd = random.Random(seed)
     rnd.shuffle(jobs)        # the seed only permutes enumeration order
@@ -199,6 +221,15 @@ def run_check(pid, tier, seed, out=sys.stdout):
                 again = None
                 out.write('INTERNAL ERROR replaying %s: %s\n' % (sig, traceback.format_exc()))
             sigs.append(sorted(set(a.signature for a in again)) if again is not None else None)
+        if (sigs[0] is None or sigs[0] != sigs[1] or sig not in sigs[0]) and v.job is not None:
+            # order-dependent: the case alone does not fail from a fresh state. Re-run the whole job that found it, twice, each in
+            # a fresh process: if the signature shows up both times the violation is deterministic at the level of that job
+            # (typical cause: state hoisted to module/class scope, so that earlier connections influence later ones)
+            again = [_job_signatures(pid, v.job) for _ in range(2)]
+            if again[0] is not None and again[0] == again[1] and sig in again[0]:
+                v.needs_job = True
+                v.message += ' [order-dependent: reproduces only after the preceding executions of its job; replay re-runs that job]'
+                sigs = [[sig], [sig]]
         if sigs[0] is None or sigs[0] != sigs[1] or sig not in sigs[0]:
             # not trusted: reported, never counted as a violation; it only decides the exit status when nothing else was confirmed
             out.write('UNCONFIRMED (did not replay identically twice from a fresh state, not reported as a violation): %s of %s (%r)\n' % (sig, pid, sigs))
@@ -261,11 +292,32 @@ def run_check(pid, tier, seed, out=sys.stdout):
     return rc
 
 
+def _job_worker(args):
+    status, r = _worker(args)
+    if status != 'ok':
+        return None
+    return sorted(set(v.signature for v in r.violations))
+
+
+def _job_signatures(pid, job):
+    ctx = multiprocessing.get_context('fork')
+    with ctx.Pool(1, maxtasksperchild=1) as pool:
+        return pool.apply(_job_worker, ((pid, job),))
+
+
 def replay_file(path, out=sys.stdout):
     with open(path) as f:
         data = json.load(f)
     check = load_check(data['property'])
     from . import world as W
+    if data.get('job') is not None:
+        out.write('this violation needs the preceding executions of its job; re-running the job %r\n' % (data['job'],))
+        sigs = _job_signatures(data['property'], data['job'])
+        if sigs and data['signature'] in sigs:
+            out.write('VIOLATION property=%s replay=%s\n  signature: %s\n  %s\n' % (data['property'], path, data['signature'], data['message']))
+            return 1
+        out.write('replay of %s: no violation on this tree\n' % path)
+        return 0
     try:
         vs = check.replay(data['case'], verbose=True)
     except W.HarnessError as error:
